@@ -427,6 +427,21 @@ def orElseCat (el : Elem α) (mv : Bool) (v : V α) : Except Err (Option α × V
     (deref v).map fun x => if mv then (some (el.mc x).1, { v with val := (el.mc x).2 }) else (some (el.cc x), v)
   else .ok (none, v)
 
+/-! #### optional<T&>: a nullable pointer; conversion from another optional -/
+
+/-- `addressof(*rhs)`: the address of the object the source optional holds (`optional<U&>`: its `_ptr`; `optional<U>`:
+    its engaged storage), `none` = disengaged; `operator*` has `TETL_PRECONDITION(has_value())` -/
+def orefAddr (src : Option Nat) : Except Err Nat :=
+  match src with
+  | some a => .ok a
+  | none => .error (.pre "optional::operator*: has_value()")
+
+/-- `optional<T&>(optional<U> const& rhs) : _ptr(rhs.has_value() ? addressof(*rhs) : nullptr)` and
+    `operator=(optional<U> const& rhs)`: `_ptr = rhs.has_value() ? addressof(*rhs) : nullptr` (the previous binding of
+    the target is overwritten): the new `_ptr` -/
+def orefConv (src : Option Nat) : Except Err (Option Nat) :=
+  if src.isSome then (orefAddr src).map some else .ok none
+
 /-! ### expected = variant<T, E>, index 0 = value -/
 
 /-- `has_value()`: `_u.index() == 0` -/
